@@ -17,14 +17,24 @@ def notDoc : Option ObjRef → Bool
   | none => true
   | some r => !r.docLevel
 
-/-- balanced histories: plain operations, and groups `push o … pop o` around balanced bodies,
-    nested and sequenced arbitrarily -/
+/-- `b` is a legitimate closer of the frame pushed by `a`: the same object (`{`…`}`, a command
+    popping its own frame), or — as in documents — the `\end{env}` instance of the same class, or a
+    macro named `end<name>`; a closer is never the parent node of what it closes. -/
+def closes : Option ObjRef → Option ObjRef → Bool
+  | none, none => true
+  | some a, some b =>
+    a.id == b.id ||
+      (a.id != b.parent && ((a.typeId == b.typeId && b.modeEnd) || b.name == endPrefix ++ a.name))
+  | _, _ => false
+
+/-- balanced histories: plain operations, and groups `push o … pop o'` (with `o'` closing `o`)
+    around balanced bodies, nested and sequenced arbitrarily -/
 inductive Balanced : List Op → Prop
   | nil : Balanced []
   | op (o : Op) (rest : List Op) : Op.plain o = true → Balanced rest → Balanced (o :: rest)
-  | group (o : Option ObjRef) (locals : List (Nat × Val)) (body rest : List Op) :
-      notDoc o = true → Balanced body → Balanced rest →
-      Balanced (Op.push o locals :: (body ++ Op.pop o :: rest))
+  | group (o o' : Option ObjRef) (locals : List (Nat × Val)) (body rest : List Op) :
+      notDoc o = true → closes o o' = true → Balanced body → Balanced rest →
+      Balanced (Op.push o locals :: (body ++ Op.pop o' :: rest))
 
 /-- the stack `c` with the definitions `g` added (newest first) to its global frame -/
 def extG (g : List (Nat × Val)) (c : Ctx) : Ctx :=
